@@ -100,6 +100,9 @@ pub struct KCase {
     pub poll_initial: i8,
     pub start_time: u64,
     pub ops: Vec<KOp>,
+    /// measured offsets are relative to the true time: steps the daemon applied reduce them
+    #[serde(default)]
+    pub closed_loop: bool,
 }
 
 // ---------------------------------------------------------------------------
@@ -407,6 +410,7 @@ pub async fn run_case(case: &KCase, stream_fd: Option<i32>) -> Vec<OpResult> {
     }
     let idx_of = |id: ClockId, ids: &[ClockId]| ids.iter().position(|x| *x == id).unwrap_or(usize::MAX);
     let mut out = Vec::new();
+    let mut stepped = 0.0f64;
     // take_control events
     clock.0.lock().unwrap().events.clear();
     for op in &case.ops {
@@ -478,6 +482,8 @@ pub async fn run_case(case: &KCase, stream_fd: Option<i32>) -> Vec<OpResult> {
                     st.now = st.now.wrapping_add(((*dt_ms as u64) << 32) / 1000);
                     nh::time::timestamp_from_raw(st.now)
                 };
+                let eff_offset = if case.closed_loop { *offset - stepped } else { *offset };
+                let offset = &eff_offset;
                 let base = |d| InternalMeasurement {
                     delay: d,
                     offset: NtpDuration::from_seconds(*offset),
@@ -534,6 +540,11 @@ pub async fn run_case(case: &KCase, stream_fd: Option<i32>) -> Vec<OpResult> {
         }
         let st = kh::controller_state(&ctl);
         let events = std::mem::take(&mut clock.0.lock().unwrap().events);
+        for e in &events {
+            if let ClockEvent::Step { raw } = e {
+                stepped += *raw as f64 / 4294967296.0;
+            }
+        }
         let observes = srcs
             .iter()
             .map(|s| {
